@@ -11,6 +11,8 @@
 (*                                                                          *)
 (* Families (constant Family):                                              *)
 (*   pair   root defaults x one -f file, trees over {a,b} depth 2           *)
+(*   deep / deepsub  the same / inside a subchart scope with a third level: *)
+(*          nulls laid over defaults that are tables below a table          *)
 (*   sub2   child's values.yaml x parent's section x user's section         *)
 (*   sub3   grandchild's values.yaml x child's section x root's section x   *)
 (*          user's section (three chart levels)                             *)
@@ -20,7 +22,7 @@
 (***************************************************************************)
 EXTENDS ValuesProps, Json
 
-CONSTANTS Family,   \* "pair" | "sub2" | "sub3" | "flags" | "set"
+CONSTANTS Family,   \* "pair" | "deep" | "sub2" | "deepsub" | "sub3" | "flags" | "set"
           Full,     \* TRUE: leaves {scalar, null, list} at both depths; FALSE: lists only at depth 1
           SetPairs, \* TRUE: also --set expressions with two assignments
           Term      \* TRUE only in simulation configurations (see Next)
@@ -49,6 +51,18 @@ SubOwn  == SetToSeq(MapsOver(A, W("i:1")))                    \* the chart's own
 SubSecA == SetToSeq({Unset} \cup {Mp(f) : f \in MapsOver(A, W("i:2"))})   \* parent's section (or none)
 SubSecB == SetToSeq({Unset} \cup {Mp(f) : f \in MapsOver(A, W("i:3"))})   \* grandparent's section
 SubUser == SetToSeq({Unset, Null, Sc("s:u")} \cup {Mp(f) : f \in MapsOver(A, W("s:u"))})
+
+(* ----- families: deep / deepsub (a null laid over a default that is a TABLE below a table) ---- *)
+\* values under one top key with a third level: a: {a|b: scalar | null | {a: scalar}}
+W3(sc) == {Sc(sc), Null, Li(<<Sc(sc)>>)}
+          \cup {Mp(f) : f \in MapsOver(AB, {Sc(sc), Null, Mp([x \in {"a"} |-> Sc(sc)])})}
+DeepOwn  == SetToSeq(MapsOver(A, W3("i:1")))                   \* the chart's own values.yaml
+DeepUser == SetToSeq(MapsOver(A, W3("s:u")))                   \* the user's values (for the chart's scope)
+DeepSec  == << Unset,                                           \* the parent's section for the subchart
+               Mp([x \in {"a"} |-> Null]),
+               Mp([x \in {"a"} |-> Mp([y \in {"a"} |-> Null])]),
+               Mp([x \in {"a"} |-> Mp([y \in {"a"} |-> Mp([z \in {"b"} |-> Sc("i:2")])])]) >>
+DeepSubUser == [i \in DOMAIN DeepUser |-> Mp(DeepUser[i])]
 
 (* ----- family: flags ---------------------------------------------------- *)
 \* a flag expression: text (as typed on the command line), fam, and its meaning as user-level
@@ -143,7 +157,9 @@ SetBases == <<
 (* ----- stages ----------------------------------------------------------- *)
 StageSets ==
   CASE Family = "pair"  -> <<PairD, PairF>>
+    [] Family = "deep"  -> <<DeepOwn, DeepUser>>
     [] Family = "sub2"  -> <<SubOwn, SubSecA, SubUser>>
+    [] Family = "deepsub" -> <<DeepOwn, DeepSec, DeepSubUser>>
     [] Family = "sub3"  -> <<SubOwn, SubSecA, SubSecB, SubUser>>
     [] Family = "flags" -> <<FlagD, FlagF1, FlagF2, Opts("json"), Opts("set"), Opts("str"),
                              Opts("file"), Opts("lit")>>
@@ -157,10 +173,10 @@ NoFlags == [f \in {"json", "set", "str", "file", "lit"} |-> <<>>]
 \* the case of a complete pick:  charts (root first), files, flag texts, and the user-level sources
 CaseOf(p) ==
   LET ch(i) == StageSets[i][p[i]] IN
-  CASE Family = "pair" ->
+  CASE Family \in {"pair", "deep"} ->
          [charts |-> <<[name |-> "root", vals |-> ch(1)]>>, files |-> <<ch(2)>>, flags |-> NoFlags,
           usr |-> <<[p |-> <<>>, v |-> Mp(ch(2)), obj |-> TRUE]>>]
-    [] Family = "sub2" ->
+    [] Family \in {"sub2", "deepsub"} ->
          [charts |-> <<[name |-> "root", vals |-> Under("s1", ch(2))], [name |-> "s1", vals |-> ch(1)]>>,
           files |-> <<Under("s1", ch(3))>>, flags |-> NoFlags,
           usr |-> <<[p |-> <<>>, v |-> Mp(Under("s1", ch(3))), obj |-> TRUE]>>]
